@@ -14,6 +14,8 @@ pub enum Ev {
     Enable,
     ResetRemaining,
     IoReset,
+    /// new range lo..=hi (set_exact when lo == hi and the flag is set); always followed by a reset event
+    SetRange(u32, u32, bool),
 }
 #[derive(Clone, Debug)]
 pub struct Case {
@@ -35,8 +37,27 @@ pub fn decode(tape: &[u32]) -> Case {
     let n = 1 + t.pick(8);
     let mut events = vec![Ev::Enable];
     for _ in 0..n {
-        events.push(match t.weighted(&[8, 1, 1, 1]) {
-            0 => Ev::Poll((hi * (1 + t.pick(6) as u32) + t.pick(40) as u32).min(6000)),
+        let cur_hi = events.iter().rev().find_map(|e| if let Ev::SetRange(_, h, _) = e { Some(*h) } else { None }).unwrap_or(hi);
+        let choice = t.weighted(&[8, 1, 1, 1, 2]);
+        if choice == 4 {
+            // the range changes (often to a smaller one) and the countdown is restarted, possibly while the timer is disabled
+            let nlo = 1 + t.pick(20) as u32;
+            let nhi = if t.chance(1, 3) { nlo } else { nlo + t.pick(10) as u32 };
+            let while_disabled = t.chance(1, 2);
+            if while_disabled {
+                events.push(Ev::Disable);
+            }
+            events.push(Ev::SetRange(nlo, nhi, t.chance(1, 2)));
+            events.push(if t.chance(1, 2) { Ev::IoReset } else { Ev::ResetRemaining });
+            if while_disabled {
+                events.push(Ev::Poll(t.pick(50) as u32));
+                events.push(Ev::Enable);
+            }
+            events.push(Ev::Poll(nhi * (1 + t.pick(4) as u32) + t.pick(20) as u32));
+            continue;
+        }
+        events.push(match choice {
+            0 => Ev::Poll((cur_hi * (1 + t.pick(6) as u32) + t.pick(40) as u32).min(6000)),
             1 => Ev::Disable,
             2 => Ev::ResetRemaining,
             _ => Ev::IoReset,
@@ -46,7 +67,8 @@ pub fn decode(tape: &[u32]) -> Case {
             events.push(Ev::Enable);
         }
     }
-    events.push(Ev::Poll(hi * 4 + 10));
+    let cur_hi = events.iter().rev().find_map(|e| if let Ev::SetRange(_, h, _) = e { Some(*h) } else { None }).unwrap_or(hi);
+    events.push(Ev::Poll(cur_hi * 4 + 10));
     Case { seed: t.raw() as u64, lo, hi, exclusive_end, exact, events, in_sim: t.chance(1, 4) }
 }
 
@@ -61,7 +83,7 @@ fn make(c: &Case) -> TimerDevice {
 
 /// Polls the timer directly; returns the fire pattern per enabled poll, segment-wise.
 fn drive(c: &Case, tm: &mut TimerDevice) -> Result<(Vec<bool>, u64), String> {
-    let (lo, hi) = (c.lo as u64, c.hi as u64);
+    let (mut lo, mut hi) = (c.lo as u64, c.hi as u64);
     let mut pattern = vec![];
     let mut since_fire: Option<u64> = None; // polls strictly after the last fire
     let mut since_start: u64 = 0; // polls since enable / reset (no fire yet)
@@ -83,6 +105,15 @@ fn drive(c: &Case, tm: &mut TimerDevice) -> Result<(Vec<bool>, u64), String> {
                 tm.io_reset();
                 since_fire = None;
                 since_start = 0;
+            }
+            Ev::SetRange(l, h, exact_form) => {
+                if l == h && *exact_form {
+                    tm.set_exact(*l);
+                } else {
+                    tm.set_range(*l..=*h);
+                }
+                lo = *l as u64;
+                hi = *h as u64;
             }
             Ev::Poll(n) => {
                 for _ in 0..*n {
@@ -167,6 +198,12 @@ pub fn check(tape: &[u32], st: &mut Stats) -> Result<(), String> {
     if c.events.iter().any(|e| matches!(e, Ev::ResetRemaining | Ev::IoReset)) {
         st.class("reset");
     }
+    if c.events.iter().any(|e| matches!(e, Ev::SetRange(..))) {
+        st.class("range-changed-and-restarted");
+    }
+    if c.events.windows(3).any(|w| matches!(w, [Ev::Disable, Ev::SetRange(..), Ev::IoReset | Ev::ResetRemaining])) {
+        st.class("range-changed-and-restarted-while-disabled");
+    }
     if c.in_sim {
         // inside a simulator: a NOP sled polls the timer once per step
         st.class("inside-simulator");
@@ -206,14 +243,14 @@ pub fn describe(tape: &[u32]) -> Value {
 
 pub fn run(ctx: &Ctx) -> Outcome {
     let mut out = Outcome::new(
-        "timers with exact counts and ranges a..=b / a..b+1 (1 <= a <= b <= 80, a few up to 10^4), seeds, enable/disable toggles, reset_remaining and io_reset, 200-6000 polls; polled directly and, for 1/4 of the cases, inside a simulator running a NOP sled (through a recording wrapper); \
+        "timers with exact counts and ranges a..=b / a..b+1 (1 <= a <= b <= 80, a few up to 10^4), seeds, enable/disable toggles, reset_remaining and io_reset, range changes (set_range / set_exact, each followed by a restart of the countdown, half of them while the timer is disabled), 200-6000 polls; polled directly and, for 1/4 of the cases, inside a simulator running a NOP sled (through a recording wrapper); \
          oracle: the number of polls strictly between consecutive interrupts lies in the range (exactly n), the first interrupt after enable/reset comes at most one poll after the maximum, a disabled timer never fires, equal seeds give equal sequences, one poll per simulator step; \
          ranges containing 0 are outside the property's domain and not generated; non-trivial = >= 3 interrupts observed; distinct by tape",
     );
     let cfg = TapeCfg::new(ctx, 2000, 100_000, 64);
     out.shards = cfg.shards;
     out.absorb(tape_search(ctx, "main", &cfg, check, describe));
-    out.essential = ["exact", "range-inclusive", "range-exclusive-end", "disable-enable", "reset", "inside-simulator"].iter().map(|s| s.to_string()).collect();
+    out.essential = ["exact", "range-inclusive", "range-exclusive-end", "disable-enable", "reset", "inside-simulator", "range-changed-and-restarted", "range-changed-and-restarted-while-disabled"].iter().map(|s| s.to_string()).collect();
     out
 }
 
